@@ -3,6 +3,7 @@ pub mod c01;
 pub mod c01_sr;
 pub mod c03;
 pub mod c06;
+pub mod c09;
 pub mod c11;
 pub mod c12;
 pub mod c17;
@@ -15,6 +16,7 @@ pub fn run(id: &str, ctx: &Ctx) -> i32 {
         "C01" => c01::run(ctx),
         "C03" => c03::run(ctx),
         "C06" => c06::run(ctx),
+        "C09" => c09::run(ctx),
         "C11" => c11::run(ctx),
         "C12" => c12::run(ctx),
         "C17" => c17::run(ctx),
@@ -29,6 +31,7 @@ pub fn replay(id: &str, path: &str) -> i32 {
         "C01" => c01::replay(&v),
         "C03" => c03::replay(&v),
         "C06" => c06::replay(&v),
+        "C09" => c09::replay(&v),
         "C11" => c11::replay(&v),
         "C12" => c12::replay(&v),
         "C17" => c17::replay(&v),
